@@ -184,6 +184,14 @@ fn check<C: Suite>(case: &Case, ctx: &mut Ctx) -> CheckResult {
                 let mut c3 = comm.clone();
                 c3.push(CoefficientCommitment::new(gen_::<C>() * sc_rand_nonzero::<C>(rng.next())));
                 r1f("extend", Expect::Part2Structural, with_commitment(pkg, c3));
+                // further wrong lengths: empty, a single coefficient (when t > 2), twice as long
+                r1f("length-0", Expect::Part2Structural, with_commitment(pkg, vec![]));
+                if t > 2 {
+                    r1f("length-1", Expect::Part2Structural, with_commitment(pkg, comm[..1].to_vec()));
+                }
+                let mut c4 = comm.clone();
+                c4.extend(comm.iter().copied());
+                r1f("length-2t", Expect::Part2Structural, with_commitment(pkg, c4));
             }
             if let Some(o) = other_sender {
                 r1f("other-senders-package", Expect::Part2Culprit, a.r1_pkg[&o].clone());
